@@ -206,6 +206,49 @@ def gen_conv(ctx, idx):
     return case
 
 
+def gen_hist(ctx, idx):
+    """histories: one or two DeepONets, several function sets (fresh parameters at every sampling) used through
+    conditions (`_forward_branch`) in equal and different iteration numbers, interleaved with direct supply"""
+    rng = ctx.rng
+    case = gen_net(ctx, 0)
+    case.update(kind="hist", seq=False, primary="tensor3", rank="r2")
+    B = case["B"]
+    nsets = rng.choice([2, 2, 3])
+    nmodels = rng.choice([1, 1, 2])
+    sizes = [B] * nsets
+    if rng.random() < 0.25:
+        sizes[-1] = B + 1
+    ndraw = 8
+    case["sets"] = [[[[dy(rng, -16, 16), dy(rng, -16, 16)] for _ in range(sz)] for _ in range(ndraw)] for sz in sizes]
+    case["fixed"] = [[[dy(rng, -16, 16), dy(rng, -16, 16)] for _ in range(rng.choice([1, B]))] for _ in range(3)]
+    sizes_t = [case["din"]] + case["trunk_hidden"] + [case["neurons"]]
+    sizes_b = [len(case["pts"]) * case["fdim"]] + case["branch_hidden"] + [case["neurons"]]
+    case["models"] = [dict(trunk=case["trunk"], branch=case["branch"])] + \
+        [dict(trunk=gen_layers(rng, sizes_t), branch=gen_layers(rng, sizes_b)) for _ in range(nmodels - 1)]
+    ops, k = [], 0
+    for _ in range(rng.randint(3, 9)):
+        r = rng.random()
+        m = rng.randrange(nmodels)
+        if r < 0.65:
+            ops.append(["cond", m, rng.randrange(nsets), k])
+        elif r < 0.8:
+            ops.append(["fwd", m, rng.randrange(3), rng.choice(["tensor3", "points3", "functionset"])])
+        elif r < 0.9:
+            ops.append(["fix", m, rng.randrange(3)])
+        else:
+            ops.append(["eval", m])
+        if rng.random() < 0.4:
+            k += rng.choice([1, 1, 2])
+    # every history ends with the pattern that matters: the same condition again in the same iteration
+    if idx % 2 == 0:
+        s0 = rng.randrange(nsets)
+        ops += [["cond", 0, s0, k + 1], ["cond", 0, (s0 + 1) % nsets, k + 1], ["cond", 0, s0, k + 1]]
+    if nmodels == 2 and idx % 3 == 0:
+        ops += [["cond", 0, 0, k + 2], ["cond", 1, 0, k + 2]]
+    case["ops"] = ops
+    return case
+
+
 def gen_lin(ctx, idx):
     rng = ctx.rng
     nin, nout = rng.randint(1, 4), rng.randint(1, 4)
@@ -261,6 +304,8 @@ def gen_cases(ctx):
         cases.append(gen_net(ctx, i))
     for i in range(ctx.scale(50, 500)):
         cases.append(gen_uniq(ctx, i))
+    for i in range(ctx.scale(60, 600)):
+        cases.append(gen_hist(ctx, i))
     for i in range(ctx.scale(30, 300)):
         cases.append(gen_conv(ctx, i))
     for i in range(ctx.scale(400, 4000)):
@@ -502,6 +547,8 @@ def run_net(case):
     # ---- features the implementation exposes (public: branch.current_out, trunk(points))
     with torch.no_grad():
         tfeat = fast.trunk(tp.spaces.Points(trunk_tensor(case), T))
+        if tfeat.dim() == 3:      # a trunk may answer a rank-2 batch without a leading axis (the plain one does)
+            tfeat = tfeat.unsqueeze(0)
         bfeat = fast.branch.current_out.detach()
     res["tfeat_shape"] = list(tfeat.shape)
     res["bfeat_shape"] = list(bfeat.shape)
@@ -622,6 +669,8 @@ def run_net(case):
     try:
         x = trunk_tensor(case).clone().requires_grad_(True)
         tf = fast.trunk(tp.spaces.Points(x, T))
+        if tf.dim() == 3:
+            tf = tf.unsqueeze(0)
         copies = tf.shape[0]
         G = torch.randint(-8, 9, (copies, N, d * K), generator=gen).double() / 8
         s = (tf.reshape(copies, N, d * K) * G).sum()
@@ -714,12 +763,13 @@ def run_conv(case):
         x = trunk_tensor(case)
         out = net(tp.spaces.Points(x, T), supply(case, case["primary"], fs)).as_tensor.detach()
         with torch.no_grad():
-            tf = net.trunk(tp.spaces.Points(x, T)).numpy()
+            tf = net.trunk(tp.spaces.Points(x, T))
+            tf = (tf.unsqueeze(0) if tf.dim() == 3 else tf).numpy()
         bf = net.branch.current_out.detach().numpy()
     except Exception as ex:
         res["problems"].append(f"DeepONet with ConvBranchNet1D raised {type(ex).__name__}: {str(ex)[:160]}")
         return res
-    if list(out.shape) != [B, N, d] or list(bf.shape) != [B, d, K] or list(tf.shape[-3:]) != [N, d, K]:
+    if list(out.shape) != [B, N, d] or list(bf.shape) != [B, d, K] or list(tf.shape[-3:]) != [N, d, K] or tf.ndim != 4:
         res["problems"].append(f"ConvBranchNet1D: output {list(out.shape)}, branch features {list(bf.shape)}, trunk features {list(tf.shape)} "
                                f"for {B} functions, {N} locations, {d} components, {K} neurons each")
         return res
@@ -739,6 +789,118 @@ def run_conv(case):
                 res["problems"].append(f"ConvBranchNet1D: branch input supplied as {v} gives a different output than supplied as {case['primary']}")
     except Exception as ex:
         res["problems"].append(f"ConvBranchNet1D: re-batched / re-supplied evaluation raised {type(ex).__name__}: {str(ex)[:160]}")
+    return res
+
+
+def run_hist(case):
+    """run the history on the implementation; after every operation that returns an output, find out WHICH input
+    functions the output belongs to (by comparison with the reference network on every candidate batch)"""
+    e = env(); tp = e["tp"]; torch = e["torch"]; np = e["np"]
+    T, U, Fo, Ti, Kp = spaces_of(case)
+    res = dict(problems=[], observed=[])
+    d, K, N = case["d"], case["neurons"] // case["d"], case["N"]
+    nets = []
+    for mw in case["models"]:
+        net, fs = build_net(dict(case, trunk=mw["trunk"], branch=mw["branch"]), True)
+        nets.append(net)
+
+    class Seq(tp.samplers.PointSampler):
+        """a parameter sampler that returns a NEW batch at every call (records how often it was called)"""
+
+        def __init__(self, batches):
+            super().__init__(n_points=len(batches[0]))
+            self.batches, self.calls = batches, 0
+
+        def sample_points(self, params=tp.spaces.Points.empty(), device="cpu"):
+            b = self.batches[min(self.calls, len(self.batches) - 1)]
+            self.calls += 1
+            return tp.spaces.Points(t64(b), Kp)
+
+    samplers = [Seq(b) for b in case["sets"]]
+    fsets = [tp.domains.CustomFunctionSet(fs, sm, fn_torch(case["fdim"])) for sm in samplers]
+    locs = e["Fixed"](tp.spaces.Points(t64(case["x"]), T))
+
+    class Ident(torch.nn.Module):
+        def forward(self, x):
+            return x
+
+    conds = {}
+
+    def cond(m, si):
+        if (m, si) not in conds:
+            conds[(m, si)] = tp.conditions.DeepONetSingleModuleCondition(
+                nets[m], fsets[si], locs, residual_fn=lambda u: u, error_fn=Ident(), reduce_fn=lambda t: t)
+        return conds[(m, si)]
+
+    def ref(m, params):
+        mw = case["models"][m]
+        tref = ref_mlp(np, mw["trunk"], case["x"], case["tacts"]).reshape(N, d, K)
+        bref = ref_mlp(np, mw["branch"], [sum(r, []) for r in fn_values(case, params)], case["bacts"]).reshape(len(params), d, K)
+        return np.einsum("ick,jck->ijc", bref, tref)
+
+    def identify(m, out):
+        """all candidate batches [kind, index, draw] whose reference output equals `out` (several if the network
+        does not distinguish the functions, e.g. a dead ReLU)"""
+        o = np.array(out)
+        found = []
+        for si, b in enumerate(case["sets"]):
+            for dr in range(min(samplers[si].calls, len(b))):
+                w = ref(m, b[dr])
+                if w.shape == o.shape and np.all(np.abs(w - o) <= TOL * np.maximum(1, np.abs(w))):
+                    found.append(["set", si, dr + 1])
+        for ti, b in enumerate(case["fixed"]):
+            w = ref(m, b)
+            if w.shape == o.shape and np.all(np.abs(w - o) <= TOL * np.maximum(1, np.abs(w))):
+                found.append(["fixed", ti, 0])
+        return found or [["unknown", list(o.shape), 0]]
+
+    # independent bookkeeping of what the property demands
+    cur = [-1] * len(fsets); draws = [0] * len(fsets); holds = {}
+    xpts = tp.spaces.Points(t64(case["x"]), T)
+    for n, op in enumerate(case["ops"]):
+        want, out = None, None
+        try:
+            if op[0] == "cond":
+                _, m, si, k = op
+                if k != cur[si]:
+                    cur[si] = k; draws[si] += 1
+                want = ["set", si, draws[si]]
+                holds[m] = want
+                out = cond(m, si).forward(iteration=k)
+            elif op[0] == "fwd":
+                _, m, ti, variant = op
+                want = ["fixed", ti, 0]; holds[m] = want
+                out = nets[m](xpts, supply(case, variant, fs, case["fixed"][ti])).as_tensor
+            elif op[0] == "fix":
+                _, m, ti = op
+                holds[m] = ["fixed", ti, 0]
+                nets[m].fix_branch_input(supply(case, "tensor3", fs, case["fixed"][ti]))
+            else:
+                _, m = op
+                if m not in holds:
+                    res["observed"].append(None)
+                    continue
+                want = holds[m]
+                out = nets[m](xpts).as_tensor
+        except Exception as ex:
+            res["observed"].append("err:" + type(ex).__name__)
+            res["problems"].append(f"history {case['ops'][:n + 1]}: operation {n} {op} raised {type(ex).__name__}: {str(ex)[:140]}")
+            break
+        if out is None:
+            res["observed"].append(None)
+            continue
+        cands = identify(m, out.detach().tolist())
+        got = want if want in cands else cands[0]
+        res["observed"].append(got)
+        res.setdefault("cands", {})[n] = cands
+        if got != want:
+            names = {"set": "function set", "fixed": "directly supplied batch", "unknown": "unknown functions, output shape"}
+            res["problems"].append(
+                f"history {case['ops'][:n + 1]}: operation {n} {op} on model {m} must return the operator applied to "
+                f"{names[want[0]]} {want[1]}" + (f" (its sampling no. {want[2]})" if want[0] == "set" else "") +
+                f", but the output is the one of {names[got[0]]} {got[1]}" + (f" (sampling no. {got[2]})" if got[0] == "set" else "")
+                + ": the stored branch features belong to other input functions")
+            break
     return res
 
 
@@ -926,7 +1088,9 @@ def judge_lin(rep, case, res, reply):
     mgw = dec_all(pgw, 2, fr)
     mgb = dec_all(pgb, 1, fr)
     igx = f["gx"] if _depth(f["gx"]) == 3 else [f["gx"]]
-    for nm, a, b in (("output", f["y"], my), ("grad_input", igx, mgx), ("grad_weight", f["gw"], mgw)) + \
+    iy = f["y"] if _depth(f["y"]) == 3 else [f["y"]]      # a rank-2 answer to a rank-2 input is as good as (1, rows, out)
+    my = my if _depth(my) == 3 else [my]
+    for nm, a, b in (("output", iy, my), ("grad_input", igx, mgx), ("grad_weight", f["gw"], mgw)) + \
             ((("grad_bias", f["gb"], mgb),) if f["gb"] is not None else ()):
         if a != b:
             rep.disagree(f"TrunkLinear {nm} vs TPV.DeepONet.fastLinear/gradInput/gradWeight/gradBias (exact)", case, a, b)
@@ -1050,6 +1214,15 @@ def evaluate(case):
     if k == "net":
         res = run_net(case)
         return res, net_lines(case, res)
+    if k == "hist":
+        toks = []
+        for op in case["ops"]:
+            if op[0] == "cond":
+                toks.append(f"fb {op[1]} {op[2]} {op[3]}")
+            elif op[0] in ("fwd", "fix"):
+                toks.append(f"fix {op[1]} {op[2]}")
+        nops = sum(1 for op in case["ops"] if op[0] != "eval")
+        return run_hist(case), [f"hist {nops} " + " ".join(toks)]
     if k == "conv":
         return run_conv(case), []
     if k == "uniq":
@@ -1063,10 +1236,50 @@ def evaluate(case):
     raise ValueError(k)
 
 
+def guarded_evaluate(case):
+    """an exception that escapes from the evaluation of a VALID configuration is a failing input of the property
+    (the implementation raised, or returned something of an unexpected shape), never trouble of the machinery"""
+    try:
+        return evaluate(case)
+    except common.HarnessTrouble:
+        raise
+    except Exception as ex:
+        import traceback
+        tb = traceback.extract_tb(ex.__traceback__)
+        where = next((f"{fr.filename.split('/src/')[-1]}:{fr.lineno}" for fr in reversed(tb) if "/torchphysics/" in fr.filename), f"{tb[-1].name}:{tb[-1].lineno}")
+        return dict(problems=[f"evaluating a valid {case['kind']} configuration raised {type(ex).__name__}: {str(ex)[:160]} (at {where})"],
+                    crashed=True), []
+
+
 def judge(rep, case, res, replies):
     k = case["kind"]
+    if res.get("crashed"):
+        for p in res["problems"]:
+            rep.fail(p, case)
+        return
     if k == "net":
         judge_net(rep, case, res, replies)
+    elif k == "hist":
+        rep.count(f"hist:models={len(case['models'])}:sets={len(case['sets'])}")
+        rep.count("hist:operations", len(case["ops"]))
+        for p in res["problems"]:
+            rep.fail(p, case)
+        # correspondence: the source TPV.DeepONet.Hist.step predicts for the model after every operation
+        pred = replies[0].split()
+        last, ti = {}, 0
+        for n, op in enumerate(case["ops"]):
+            if op[0] != "eval":
+                if ti >= len(pred):
+                    break
+                last[op[1]] = pred[ti]; ti += 1
+            cands = res.get("cands", {}).get(n)
+            if cands is None:
+                continue
+            txt = [f"set:{c[1]}:{c[2]}" if c[0] == "set" else f"fixed:{c[1]}" if c[0] == "fixed" else "unknown" for c in cands]
+            if last.get(op[1]) not in txt:
+                rep.disagree(f"history: after operation {n} {op} the implementation's output belongs to {txt}, "
+                             f"TPV.DeepONet.Hist.step predicts {last.get(op[1])}", case, txt, last.get(op[1]))
+                break
     elif k == "conv":
         rep.count("conv-branch (oracles only)")
         for p in res["problems"]:
@@ -1083,6 +1296,8 @@ def judge(rep, case, res, replies):
 
 def key_of(case):
     k = case["kind"]
+    if k == "hist":
+        return ["hist", len(case["models"]), [len(b[0]) for b in case["sets"]], case["ops"]]
     if k in ("net", "uniq", "conv"):
         return [k, case["din"], case["d"], case["neurons"], case["trunk_hidden"], case["branch_hidden"], case["tacts"], case["tform"],
                 case["bacts"], case["bform"], case["fdim"],
@@ -1096,6 +1311,8 @@ def key_of(case):
 
 def nontrivial(case):
     k = case["kind"]
+    if k == "hist":
+        return len(case["ops"]) >= 3
     if k in ("net", "uniq", "conv"):
         return case["B"] * case["N"] >= 2 and case["primary"] != "tensor3bad"
     if k == "lin":
@@ -1107,9 +1324,14 @@ def nontrivial(case):
 
 def sample_of(case, res, replies):
     k = case["kind"]
+    if res.get("crashed"):
+        return dict(kind=k, crashed=res["problems"])
     if k == "net":
         return dict(kind="net", arch=key_of(case), implementation_output=res.get("fast") if not isinstance(res.get("fast"), list) else res["fast"][0][:2],
                     fast_vs_plain_maxreldiff=res.get("o4"), variants_maxdiff=res.get("variants"), model_reply_head=replies[0][:60])
+    if k == "hist":
+        return dict(kind="hist", models=len(case["models"]), set_sizes=[len(b[0]) for b in case["sets"]], ops=case["ops"],
+                    observed_source_per_op=res.get("observed"))
     if k == "conv":
         return dict(kind="conv", arch=key_of(case), implementation_output=res["out"][0][:2] if "out" in res else None)
     if k == "uniq":
@@ -1129,7 +1351,7 @@ def run(ctx, rep, cases=None):
     cases = cases if cases is not None else gen_cases(ctx)
     evaluated, lines, spans = [], [], []
     for c in cases:
-        res, ls = evaluate(c)
+        res, ls = guarded_evaluate(c)
         evaluated.append(res)
         spans.append((len(lines), len(lines) + len(ls)))
         lines += ls
@@ -1151,7 +1373,7 @@ def run(ctx, rep, cases=None):
 def search_only(ctx, rep):
     """the driver is broken: run the property oracles alone"""
     for c in gen_cases(ctx):
-        res, _ = evaluate(c)
+        res, _ = guarded_evaluate(c)
         for p in res["problems"]:
             rep.fail(p, c)
 
